@@ -726,4 +726,177 @@ example : let s := srun (Session.init false 1) (sevs.take 9)
     s.recorded = some "ks" ∧ s.calls.map s.answer = [some (.err .dbError)] ∧
     ((s.cluster.pools 0).net 0).serverKs = none := by decide
 
+/-! ## F. Which connection a request is handed (`connection_for_shard`, `random_connection`)
+
+Requests never look at anything but the published list: whatever the random choices, the connection handed out
+is a published one - the shard's own when it has one. With §C this is the property's headline in its own terms:
+every connection a request can be handed has acknowledged the keyspace. -/
+
+private theorem chooseFrom_mem {l : List Nat} {r c : Nat} (h : chooseFrom l r = some c) : c ∈ l := by
+  unfold chooseFrom at h
+  split at h
+  · cases h
+  · exact List.mem_of_getElem? h
+
+private theorem chooseFrom_some {l : List Nat} (r : Nat) (h : l ≠ []) : ∃ c, chooseFrom l r = some c := by
+  unfold chooseFrom
+  have hne : l.isEmpty = false := by cases l <;> simp_all
+  rw [hne]
+  simp only [Bool.false_eq_true, ↓reduceIte]
+  have hlen : 0 < l.length := by cases l <;> simp_all
+  exact ⟨l[r % l.length]'(Nat.mod_lt _ hlen), List.getElem?_eq_getElem _⟩
+
+private theorem bucket_sub (p : Pool K) (s : Nat) : ∀ c ∈ p.bucket s, c ∈ p.conns :=
+  fun c hc => (List.mem_filter.mp hc).1
+
+private theorem tryShards_mem (p : Pool K) (ρ : Nat → Nat × Nat) (fuel k : Nat) (toTry : List Nat) (c : Nat)
+    (h : p.tryShards ρ fuel k toTry = some c) : c ∈ p.conns := by
+  induction fuel generalizing k toTry with
+  | zero => simp [Pool.tryShards] at h
+  | succ fuel ih =>
+    simp only [Pool.tryShards] at h
+    split at h
+    · cases h
+    · split at h
+      · rename_i c' hc'
+        simp only [Option.some.injEq] at h
+        subst h
+        exact bucket_sub p _ _ (chooseFrom_mem hc')
+      · exact ih _ _ h
+
+/-- **handed_connection_is_published**: whatever the shard asked for and whatever the random choices,
+`connection_for_shard` hands out a published connection, and one of the asked shard whenever that shard has a
+published connection; a pool without published connections hands out nothing (`Err(Initializing | Broken)`). -/
+theorem handed_connection_is_published (p : Pool K) (shard r : Nat) (ρ : Nat → Nat × Nat) (c : Nat)
+    (h : p.connectionForShard shard r ρ = some c) : c ∈ p.handable shard ∧ c ∈ p.conns := by
+  unfold Pool.connectionForShard at h
+  unfold Pool.handable
+  split at h
+  · cases h
+  · cases hs : p.sharder with
+    | none =>
+      rw [hs] at h
+      simp only at h ⊢
+      exact ⟨chooseFrom_mem h, chooseFrom_mem h⟩
+    | some n =>
+      rw [hs] at h
+      simp only at h ⊢
+      by_cases hlt : shard < n
+      · simp only [hlt, ↓reduceIte, decide_true, Bool.true_and] at h ⊢
+        by_cases hb : (p.bucket shard) = []
+        · have hnone : chooseFrom (p.bucket shard) r = none := by simp [chooseFrom, hb]
+          rw [hnone] at h
+          simp only at h
+          have hc := tryShards_mem p ρ _ _ _ c h
+          simp [hb, hc]
+        · obtain ⟨c', hc'⟩ := chooseFrom_some r hb
+          rw [hc'] at h
+          simp only [Option.some.injEq] at h
+          subst h
+          have hm := chooseFrom_mem hc'
+          have hne : (p.bucket shard).isEmpty = false := by cases hq : p.bucket shard <;> simp_all
+          simp only [hne, Bool.not_false, ↓reduceIte]
+          exact ⟨hm, bucket_sub p _ _ hm⟩
+      · simp only [hlt, ↓reduceIte, decide_false, Bool.false_and, Bool.false_eq_true] at h ⊢
+        have hc := tryShards_mem p ρ _ _ _ c h
+        exact ⟨hc, hc⟩
+
+theorem random_connection_is_published (p : Pool K) (rs r : Nat) (ρ : Nat → Nat × Nat) (c : Nat)
+    (h : p.randomConnection rs r ρ = some c) : c ∈ p.conns := by
+  unfold Pool.randomConnection at h
+  split at h <;> exact (handed_connection_is_published p _ r ρ c h).2
+
+theorem empty_pool_hands_out_nothing (p : Pool K) (shard r : Nat) (ρ : Nat → Nat × Nat) (h : p.conns = []) :
+    p.connectionForShard shard r ρ = none := by
+  simp [Pool.connectionForShard, h]
+
+/-- **every_handed_connection_has_keyspace** — the headline in the property's own terms. In every reachable
+state in which the newest use-keyspace request did not overlap an older one and was answered Ok (or with a
+broken-connection error): whatever shard a request asks for and whatever the random choices, the connection it
+is handed - unless broken (the request then fails) or marked `unclaimed` (a user-issued `USE` / an out-of-order
+answer since) - has the keyspace set at the server, and no `USE` in flight that could still change it. -/
+theorem every_handed_connection_has_keyspace (perShard : Bool) (target : Nat) (ks0 : Option K) (evs : List (Ev K)) :
+    let p := run (Pool.init perShard target ks0) evs
+    p.overlap = false → ∀ L, p.latest = some L → (L.resp = some .ok ∨ L.resp = some (.err .broken)) →
+      ∀ shard r ρ c, p.connectionForShard shard r ρ = some c →
+        (p.net c).broken = false → (p.net c).unclaimed = false →
+        (p.net c).serverKs = some L.ks ∧ (p.net c).queue = [] := by
+  intro p hov L hL hresp shard r ρ c hc hb hm
+  exact (published_has_keyspace perShard target ks0 evs hov L hL hresp).2 c
+    (handed_connection_is_published p shard r ρ c hc).2 hb hm
+
+/-- non-vacuity: a sharded pool with connections 0 (shard 0) and 1 (shard 1): a request for shard 1 gets
+connection 1; after connection 1 is lost a request for shard 1 falls back to connection 0. -/
+private def evsPick : List (Ev Nat) :=
+  [.useKs 4, .refill, .opened 0 (some 2) none, .ksSet 0 .ack, .refill, .opened 1 (some 2) (some 1), .ksSet 1 .ack]
+example : let p := run (Pool.init true 1 (none : Option Nat)) evsPick
+    p.conns = [0, 1] ∧ p.connectionForShard 1 5 (fun _ => (0, 0)) = some 1 ∧ p.handable 1 = [1] ∧
+    p.connectionForShard 7 5 (fun _ => (1, 0)) = some 1 ∧ p.randomConnection 2 0 (fun _ => (0, 0)) = some 0 := by decide
+private def evsPick2 : List (Ev Nat) := evsPick ++ [.breakConn 1, .connError 1]
+example : let p := run (Pool.init true 1 (none : Option Nat)) evsPick2
+    p.conns = [0] ∧ p.connectionForShard 1 5 (fun _ => (1, 0)) = some 0 ∧ p.handable 1 = [0] := by decide
+
+/-! ## G. Overlapping calls: what holds, and what does not, for the last call to return -/
+
+/-- **new_connections_carry_newest_keyspace** (no discipline assumed - overlapping requests, any order of
+answers): a published connection that is in no request's snapshot - it was published after the NEWEST request
+arrived - carries the pool's current keyspace (= the newest request's), with nothing in flight, unless broken or
+marked. Overlap can only leave the connections that existed when the requests arrived in different keyspaces. -/
+theorem new_connections_carry_newest_keyspace (perShard : Bool) (target : Nat) (ks0 : Option K) (evs : List (Ev K)) :
+    let p := run (Pool.init perShard target ks0) evs
+    ∀ i ∈ p.conns, (∀ t ∈ p.tasks, i ∉ t.snapshot) → (p.net i).broken = false → (p.net i).unclaimed = false →
+      (p.net i).serverKs = p.currentKs ∧ (p.net i).queue = [] :=
+  (reachable_inv perShard target ks0 evs).fresh
+
+/-- The pool's current keyspace is always the keyspace of the newest request (the last to ARRIVE, whichever
+returns last). -/
+theorem current_keyspace_is_newest_request (perShard : Bool) (target : Nat) (ks0 : Option K) (evs : List (Ev K)) :
+    let p := run (Pool.init perShard target ks0) evs
+    ∀ L, p.latest = some L → p.currentKs = some L.ks := by
+  intro p
+  suffices h : ∀ (q : Pool K) (es : List (Ev K)), Inv q → (∀ L, q.latest = some L → q.currentKs = some L.ks) →
+      ∀ L, (run q es).latest = some L → (run q es).currentKs = some L.ks from
+    h _ evs (inv_init _ _ _) (by intro L hL; simp [Pool.latest, Pool.init] at hL)
+  intro q es
+  unfold run
+  induction es generalizing q with
+  | nil => intro _ hq; exact hq
+  | cons e es ih =>
+    intro hinv hq
+    apply ih _ (inv_step hinv e)
+    intro L hL
+    cases hu : e.isUseKs with
+    | true =>
+      cases e <;> simp [Ev.isUseKs] at hu
+      simp only [step, Pool.latest, List.head?_cons, Option.some.injEq] at hL ⊢
+      subst hL; rfl
+    | false =>
+      obtain ⟨g, hg, _, hk, hprop⟩ := step_nonUse hinv e hu
+      unfold Pool.latest at hL hq
+      rw [hg, List.head?_map] at hL
+      rw [hk]
+      cases hq0 : q.tasks.head? with
+      | none => rw [hq0] at hL; cases hL
+      | some L0 =>
+        rw [hq0] at hL
+        simp only [Option.map_some, Option.some.injEq] at hL
+        subst hL
+        rw [hq L0 hq0, (hprop L0 (List.mem_of_mem_head? hq0)).2.2.2]
+
+/-- What holds for the LAST call to return when calls overlapped: its own `USE` was acknowledged on every
+then-published live connection (`success_means_all_acked`), connections published after the newest request
+carry the newest request's keyspace (`new_connections_carry_newest_keyspace`), and the next call that does not
+overlap repairs everything (`published_has_keyspace`, the ghost is not sticky). What does NOT hold: that the
+connections end in the keyspace of the last call to return, or of the newest request. Two connections, requests
+0 (keyspace 1) and 1 (keyspace 2) overlap; connection 0 executes 2 then 1, connection 1 executes 1 then 2;
+request 1 is the newest AND the last to return, both answered Ok - connection 0 is in keyspace 1. -/
+private def evsLastReturn : List (Ev Nat) :=
+  [.refill, .opened 0 none none, .refill, .opened 0 none none, .useKs 1, .useKs 2,
+   .taskSubmit 1 0, .taskSubmit 0 0, .taskSubmit 0 1, .taskSubmit 1 1,
+   .serve 0 .ack, .serve 0 .ack, .serve 1 .ack, .taskFinish 0, .serve 1 .ack, .taskFinish 1]
+example : let p := run (Pool.init false 2 (none : Option Nat)) evsLastReturn
+    p.overlap = true ∧ p.tasks.map (fun t => (t.ks, t.resp)) = [(2, some .ok), (1, some .ok)] ∧
+    p.currentKs = some 2 ∧ p.conns = [0, 1] ∧ (p.net 0).serverKs = some 1 ∧ (p.net 1).serverKs = some 2 ∧
+    (p.net 0).acked = [2, 1] ∧ (p.net 1).acked = [1, 2] ∧ (p.net 0).unclaimed = false := by decide
+
 end ScyllaVerif.Props.C20
